@@ -106,7 +106,9 @@ def force_literals(pre, env, st):
 
 def gen_sem_case(ch, tier, ft=None, n_probes=6, force=0.0, same_action=False):
     """{dom, objects, probes: [{action, args, state}], perm: [ints]}"""
-    ft = ft or G.DEFAULT
+    ft = dict(ft or G.DEFAULT)
+    if ft.get("typed", True) and not ft.get("typed_fixed"):
+        ft["typed"] = not ch.flag(0.12)    # untyped domains: everything is of type object
     dom, objects = G.gen_domain(ch, ft)
     world = pddl.World(dom, objects)
     probes = []
